@@ -121,4 +121,11 @@ def specs_nof(tier):
     for lay in layouts_mul:
         s.append((NF_, "unit_mul", {"layout": lay, "timeout_ms": t}))
     s.append((NF_, "unit_mul", {"layout": ["fermion", "fermion"], "timeout_ms": t, "canary": True}))
+    for lay in layouts_small + [["fermion", "fermion"], ["spin", "fermion", "fermion"]]:
+        s.append((NF_, "unit_adjoint", {"layout": lay, "timeout_ms": t}))
+    s.append((NF_, "unit_adjoint", {"layout": ["fermion", "fermion"], "timeout_ms": t, "canary": True}))
+    for lay in layouts_small[:3]:
+        s.append((NF_, "unit_neg", {"layout": lay, "timeout_ms": t}))
+        s.append((NF_, "unit_add", {"layout": lay, "timeout_ms": t}))
+    s.append((NF_, "unit_add", {"layout": ["boson"], "timeout_ms": t, "canary": True}))
     return s
